@@ -265,4 +265,12 @@ class If(raw_types.Operation):
         if subop_qasm is None:
             return None
         condition_qasm = " && ".join(protocols.qasm(c, args=args) for c in self._conditions)
-        return f'if ({condition_qasm}) {subop_qasm}'
+        # The QASM of the sub operation may consist of several statements: each one is conditional.
+        return ''.join(
+            (
+                f'if ({condition_qasm}) {line}'
+                if line.strip() and not line.lstrip().startswith('//')
+                else line
+            )
+            for line in subop_qasm.splitlines(keepends=True)
+        )
